@@ -119,10 +119,15 @@ pub(crate) fn without_terminator(
     bytes: &[u8],
     line_term: LineTerminator,
 ) -> &[u8] {
+    let is_crlf = line_term.is_crlf();
     let line_term = line_term.as_bytes();
     let start = bytes.len().saturating_sub(line_term.len());
     if bytes.get(start..) == Some(line_term) {
         return &bytes[..bytes.len() - line_term.len()];
+    }
+    // When the line terminator is CRLF, a `\n` on its own still ends a line.
+    if is_crlf && bytes.last() == Some(&b'\n') {
+        return &bytes[..bytes.len() - 1];
     }
     bytes
 }
